@@ -32,6 +32,8 @@ Sub-directives (inside a block, each applies to the extracted item only):
 Unit-level directives (outside blocks):
     //%features a b c      feature set used to resolve #[cfg(feature = "...")]
     //%gsub "<tokens>" => "<text>"  [# rule]   applied to every extracted item of the unit
+    //%dropawait           rule R-await: `E.await` -> `E` in every extracted item
+    //%dropfmt             rule R-fmt: `format_args!(..)` -> `vp_fmt_args()` in every extracted item
 Anchors are token sequences (compared after lexing, so whitespace/comments do not matter); they
 must match exactly once unless written  "<tokens>"@k  (k-th match, 1-based).
 
@@ -781,6 +783,8 @@ def parse_template(text):
                 meta["features"] = rest.split()
             elif d == "dropawait":
                 meta["dropawait"] = True
+            elif d == "dropfmt":
+                meta["dropfmt"] = True
             elif d == "gsub":
                 mm = SUB_RE.match(rest)
                 if not mm:
@@ -899,7 +903,8 @@ def extract_item(item, meta, mutant=None, twin=False):
             raise ExtractError("expr: function has no body")
         a1, k1, a2, k2, excl = expr_range
         s_idx = select_match(toks, a1, k1, item.name + " expr-start", bi, ei + 1)
-        e_idx = select_match(toks, a2, k2, item.name + " expr-end", s_idx, ei + 1)
+        # the end anchor is the FIRST match at or after the start (so `.. ";"` means "to the end of the statement")
+        e_idx = select_match(toks, a2, k2 if k2 is not None else 1, item.name + " expr-end", s_idx, ei + 1)
         e_idx = e_idx - 1 if excl else e_idx + len(a2) - 1
         start_b, end_b = toks[s_idx].start, toks[e_idx].end
         lo_idx, hi_idx = s_idx, e_idx
@@ -957,6 +962,18 @@ def extract_item(item, meta, mutant=None, twin=False):
         apply_sub(anchor, k, text, tag, exact1, required)
     for (anchor, text, tag) in meta["gsubs"]:
         apply_sub(anchor, None, text, tag, False, required=False)
+    if meta.get("dropfmt"):
+        # R-fmt: `format_args!( .. )` (a message for a log line / error text) -> `vp_fmt_args()`; the arguments are
+        # dropped: formatting has no effect on the decisions verified
+        k = 0
+        while k < len(ctoks) - 2:
+            if ctoks[k].text == "format_args" and ctoks[k + 1].text == "!" and ctoks[k + 2].text == "(":
+                close = match_close(ctoks, k + 2)
+                ed.replace(ctoks[k].start, ctoks[close].end, "vp_fmt_args()", "R-fmt")
+                fired.add("R-fmt")
+                k = close + 1
+            else:
+                k += 1
     if meta.get("dropawait"):
         # R-await: `E.await` -> `E` (the awaited calls are modelled as plain calls; only decisions are verified)
         for k in range(len(ctoks) - 1):
@@ -1089,9 +1106,17 @@ def extract_item(item, meta, mutant=None, twin=False):
     # R-clo: closure headers
     for (anchor, k, header) in item.closures:
         h = select_match(ctoks, anchor, k, f"{item.name} //%closure")
+        # an optional line `@body: <statements>` in the header text is inserted at the start of the closure body
+        # (R-ref: a `|&x|` parameter pattern becomes `|vp_x: &T|` + `let x = *vp_x;`)
+        prologue = ""
+        if "@body:" in header:
+            header, prologue = header.split("@body:", 1)
+            header, prologue = header.rstrip(), " " + prologue.strip() + " "
         ed.replace(ctoks[h].start, ctoks[h + len(anchor) - 1].end, header, "R-clo")
         fired.add("R-clo")
         b = h + len(anchor)
+        if ctoks[b].text == "{" and prologue:
+            ed.replace(ctoks[b].end, ctoks[b].end, prologue, "R-clo")
         if ctoks[b].text != "{":
             depth = 0
             e = b
@@ -1106,7 +1131,7 @@ def extract_item(item, meta, mutant=None, twin=False):
                 elif tt.text == "," and depth == 0:
                     break
                 e += 1
-            ed.replace(ctoks[b].start, ctoks[b].start, " { ", "R-clo")
+            ed.replace(ctoks[b].start, ctoks[b].start, " { " + prologue, "R-clo")
             ed.replace(ctoks[e - 1].end, ctoks[e - 1].end, " }", "R-clo")
     # inserts
     for (where, anchor, k, text) in item.inserts:
